@@ -226,7 +226,8 @@ def _srs_cases(ctx):
                 maxcpu=rng.choice([1, 2, 3, 5, 16]), LF=rng.randint(2, 14), N=rng.randint(20, 300),
                 H=rng.choice([1, 1, 2, 3]), oneD=rng.random() < 0.3, kind=rng.choice(["noise", "sine", "walk"]),
                 pattern=rng.choice(["none", "reverse", "random", "random", "first-last"]),
-                eqsine=rng.random() < 0.2, zero_freq=rng.random() < 0.15, seed=rng.randint(0, 10 ** 6),
+                eqsine=rng.random() < 0.2, zero_freq=rng.random() < 0.15, dup_freq=rng.random() < 0.3,
+                seed=rng.randint(0, 10 ** 6),
             )
         )
     return cases
@@ -242,6 +243,9 @@ def _run_srs(c, parallel):
     freq = np.sort(r.uniform(2.0, 40.0, c["LF"]))
     if c["zero_freq"]:
         freq[0] = 0.0
+    if c.get("dup_freq") and c["LF"] >= 3:
+        k = 1 + int(r.integers(0, c["LF"] - 1))
+        freq[k] = freq[k - 1]  # repeated frequency (e.g. two stacked bands sharing an end point)
     if parallel == "yes":
         _set_delays(c["LF"], c["pattern"], c["seed"])
     with warnings.catch_warnings():
@@ -257,7 +261,8 @@ def _fde_cases(ctx):
     return [
         dict(resp=rng.choice(["absacce", "pvelo"]), LF=rng.randint(2, 9), N=rng.randint(400, 1500),
              nbins=rng.choice([8, 20, 300]), maxcpu=rng.choice([1, 2, 3, 5, 16]),
-             pattern=rng.choice(["none", "reverse", "random", "first-last"]), seed=rng.randint(0, 10 ** 6))
+             pattern=rng.choice(["none", "reverse", "random", "first-last"]), dup_freq=rng.random() < 0.4,
+             seed=rng.randint(0, 10 ** 6))
         for _ in range(n)
     ]
 
@@ -268,6 +273,9 @@ def _run_fde(c, parallel):
     r = np.random.default_rng(c["seed"])
     sig = r.standard_normal(c["N"])
     freq = np.sort(r.uniform(5.0, 60.0, c["LF"]))
+    if c.get("dup_freq") and c["LF"] >= 3:
+        k = 1 + int(r.integers(0, c["LF"] - 1))
+        freq[k] = freq[k - 1]
     if parallel == "yes":
         _set_delays(c["LF"], c["pattern"], c["seed"])
     with warnings.catch_warnings():
@@ -295,6 +303,8 @@ def _compare_all(ctx, report, hints=()):
         ctx.case((routine, tuple(sorted((k, str(v)) for k, v in c.items())), tuple(order)), nontrivial=nontriv,
                  branch="%s:%s" % (routine, c.get("ic", c.get("resp"))))
         ctx.count("pattern:" + c["pattern"])
+        if c.get("dup_freq") and c["LF"] >= 3:
+            ctx.count("dup-freq:" + routine)
         ctx.count("maxcpu:%s" % c["maxcpu"])
         if routine == "srs":
             ctx.count("stype:" + c["stype"])
@@ -437,14 +447,20 @@ def _validate_footprint(ctx):
 
 
 def correspondence(ctx):
-    _validate_footprint(ctx)
-    ctx.sample({"generated_footprints": [{k: w[k] for k in ("name", "writes", "reads", "serial_same")} for w in _WS]}, cap=8)
+    if _WS is not None:
+        _validate_footprint(ctx)
+        ctx.sample({"generated_footprints": [{k: w[k] for k in ("name", "writes", "reads", "serial_same")} for w in _WS]}, cap=8)
+    else:
+        # the translator refused the source (tie already recorded as broken): the run-time bit comparison
+        # below is then the search for a failing input
+        ctx.count("footprint-cells-checked", 0)
 
     def rep(routine, c, detail):
         ctx.disagree("parallel-vs-serial:" + routine, {"routine": routine, "case": c}, detail, "bit-identical to parallel='no'")
 
     _compare_all(ctx, rep)
-    ctx.require_branches(["pattern:reverse", "pattern:random", "getresp:True", "getresp:False", "fdepsd:absacce"])
+    ctx.require_branches(["pattern:reverse", "pattern:random", "getresp:True", "getresp:False", "fdepsd:absacce",
+                          "dup-freq:srs", "dup-freq:fdepsd"])
 
 
 def _family(routine, c, detail):
